@@ -2859,7 +2859,7 @@ void
 ldb_verif_wait_idle(ldb_t *db) {
   ldb_mutex_lock(&db->mutex);
 
-  while (db->background_compaction_scheduled && db->bg_error == LDB_OK)
+  while (db->background_compaction_scheduled)
     ldb_cond_wait(&db->background_work_finished_signal, &db->mutex);
 
   ldb_mutex_unlock(&db->mutex);
